@@ -374,15 +374,20 @@ void RangeToken::addRange(const XMLInt32 start, const XMLInt32 end) {
 
         if(fSorted && fRanges[fElemCount-1] >= val1)
         {
+            bool handled = false;
             for (int i = 0; i < (int)fElemCount; i +=2)
             {
                 // check if this range is already part of this one
                 if (fRanges[i] <= val1 && fRanges[i+1] >= val2)
+                {
+                    handled = true;
                     break;
+                }
                 // or if the new one extends the old one
                 else if(fRanges[i]==val1 && fRanges[i+1] < val2)
                 {
                     fRanges[i+1]=val2;
+                    handled = true;
                     break;
                 }
                 else if (fRanges[i] > val1 ||
@@ -393,8 +398,17 @@ void RangeToken::addRange(const XMLInt32 start, const XMLInt32 end) {
                     fRanges[i]   = val1;
                     fRanges[i+1] = val2;
                     fElemCount  += 2;
+                    handled = true;
                     break;
                 }
+            }
+            if (!handled)
+            {
+                // the new range starts after the start of every existing range and
+                // reaches beyond the last one: append it (still sorted by start;
+                // compactRanges() merges the overlap)
+                fRanges[fElemCount++] = val1;
+                fRanges[fElemCount++] = val2;
             }
         }
         else
